@@ -20,7 +20,10 @@ RULE = ('number families, each enumerated completely: (digits) every double m x 
         'has a fraction or an exponent. Parser families: every string of length <= L over a 14-symbol alphabet for '
         'numberParseFloat and over an 11-symbol alphabet x radix {2, 10, 16, 36, default} for numberParseInt, compared with '
         'a strict grammar (core texts must give the exactly rounded value, every text outside the grammar must give '
-        'null, never a non-finite or prefix value); a text is non-trivial when it is in the grammar or accepted.')
+        'null, never a non-finite or prefix value); a text is non-trivial when it is in the grammar or accepted. (radix) numberParseInt for '
+        'every radix 2..36 on every short string over the digits at the edge of the radix. (memo) every call history a, b, a over a set of '
+        'parser / stringNew calls whose texts or values collide when normalised (1, 1.0, true, "1", " 1", -0.0 ...), each call checked '
+        'by its own oracle, so that nothing remembered between calls can go unnoticed; non-trivial when a and b are different calls.')
 ASSUMPTIONS = [
     'IEEE-754 binary64 floats; math.ldexp, math.nextafter and struct are exact (used to build doubles and compare bits)',
     "float('<m>e<e>') is only used to *pick* the doubles of the digits family; the oracle never uses float(str)",
@@ -31,6 +34,9 @@ ASSUMPTIONS = [
     "Python-only spellings outside the alphabet ('1_0', non-ASCII digits) are not exercised: the property does not say "
     'whether they are numbers',
     'the sign of a zero result is compared only for the round trip of -0.0 / 0.0, not for arbitrary zero texts',
+    'upper-case letter digits (FF under radix 16) are UNSPECIFIED: null or the exact value',
+    'state kept between calls is only looked for inside one process along the enumerated histories (a, b, a) and along the fixed '
+    'enumeration order of each shard; every shard runs in a fresh process',
 ]
 
 FLOAT_ALPHABET = ['0', '1', '9', '.', 'e', 'E', '+', '-', ' ', 'x', 'n', 'a', 'i', 'f']
@@ -71,6 +77,7 @@ def impl():
         _IMPL['pf_global'] = bs.parse_script('return numberParseFloat(ss)')
         _IMPL['pi_global'] = bs.parse_script('return numberParseInt(ss, rr)')
         _IMPL['pi_global_default'] = bs.parse_script('return numberParseInt(ss)')
+        _IMPL['sn_global'] = bs.parse_script('return stringNew(xx)')
     return _IMPL
 
 
@@ -488,6 +495,129 @@ def check_pscript(case, acc):
     return check_pfloat(case, acc)
 
 
+# ---------------------------------------------------------------------------------------------------------------------
+# every radix, and call histories (nothing may be remembered between calls)
+
+
+def radix_alphabet(radix):
+    """0, 1, the largest digit of the radix (lower and upper case), the first non-digit, z, sign, space."""
+    top = nt.DIGITS[radix - 1]
+    beyond = nt.DIGITS[radix] if radix < 36 else '!'
+    out = []
+    for ch in ['0', '1', top, top.upper(), beyond, 'z', '-', ' ']:
+        if ch not in out:
+            out.append(ch)
+    return out
+
+
+RADIX_LEN = {'quick': 3, 'thorough': 4}
+
+
+def radix_texts(radix, maxlen):
+    alpha = radix_alphabet(radix)
+    for n in range(maxlen + 1):
+        for t in itertools.product(alpha, repeat=n):
+            yield ''.join(t)
+
+
+def radix_expected(maxlen):
+    """Alphabet sizes: radix 2 has 6 symbols (largest digit = 1), radix 3..10 have 7 (no upper case), radix 11..34 have 8,
+    radix 35 (first non-digit = z) and radix 36 (largest digit = z) have 7."""
+    return _nstrings(6, maxlen) + 8 * _nstrings(7, maxlen) + 24 * _nstrings(8, maxlen) + 2 * _nstrings(7, maxlen)
+
+
+def fam_radix(arg):
+    tier, radixes = arg
+    acc = Acc('radix')
+    for radix in radixes:
+        for text in radix_texts(radix, RADIX_LEN[tier]):
+            acc.cases += 1
+            obs = check_pint({'text': text, 'radix': radix, 'via': 'script-global' if len(text) == 2 else 'direct'}, acc)
+            acc.outcome(obs)
+            if obs[:2] != ('reject', True):
+                acc.nontrivial += 1
+        acc.sample({'radix': radix, 'alphabet': radix_alphabet(radix), 'largest': call_parse_int(nt.DIGITS[radix - 1] * 2, radix, 'direct')})
+    return acc.result()
+
+
+MEMO_FLOAT_TEXTS = ['1', '1.0', ' 1', '1 ', '+1', '01', '1e0', '1e+0', '1.', '-1', '-0', '0', '0.0', '', 'true', '1x', 'nan', 'inf', '-inf',
+                    'NaN', 'Infinity', '1e999', '0x1', '10', '1.5', '15', '1e1']
+MEMO_INT_TEXTS = ['10', '1', '11', 'z', 'a', 'A', '010', ' 10', '10 ', '+10', '-10', '1.0', '', '0x10', '1e1', 'true']
+MEMO_INT_RADIXES = [None, 10, 2, 16, 36, 10.0]
+MEMO_VALUES = [1, 1.0, True, '1', -0.0, 0, 0.0, False, None, 'true', '1.0', 1e21, 10 ** 21, 1.5, '1.5', 10, 10.0, '10', -1, -1.0, 100.0, 1e-7]
+
+
+def memo_calls():
+    if 'memo' not in _MEMO:
+        calls = [('pf', t) for t in MEMO_FLOAT_TEXTS]
+        calls += [('pi', t, r) for t in MEMO_INT_TEXTS for r in MEMO_INT_RADIXES]
+        calls += [('sn', i) for i in range(len(MEMO_VALUES))]
+        _MEMO['memo'] = calls
+    return _MEMO['memo']
+
+
+N_MEMO_CALLS = 27 + 16 * 6 + 22
+_MEMO = {}
+
+
+def run_memo_call(call, via, case, acc):
+    """One call of a history, checked by its own oracle. Returns a small observation."""
+    if call[0] == 'pf':
+        return check_pfloat(dict(case, text=call[1], via=via), acc)
+    if call[0] == 'pi':
+        return check_pint(dict(case, text=call[1], radix=call[2], via=via), acc)
+    x = MEMO_VALUES[call[1]]
+    im = impl()
+    if via == 'direct':
+        text = im['F']['stringNew']([x], None)
+    else:
+        text = im['bs'].execute_script(im['sn_global'], {'globals': {'xx': x}})
+    acc.evals += 1
+    if not is_num(x):
+        return ('sn', 'other')       # booleans, strings, null: only there to set up state for the next call
+    c2 = dict(case, value=repr(x), text=text)
+    p = nt.parse_decimal(text) if isinstance(text, str) else None
+    if p is None:
+        acc.violation(c2, 'a decimal number text', text, 'the text of a number (after other values were stringified) is not a decimal number')
+        return ('sn', 'bad')
+    val = nt.decimal_to_double(p)
+    if val is nt.OVERFLOW or not same_number(val, x):
+        acc.violation(c2, x, val, 'the text of a number (after other values were stringified) does not denote it')
+    elif x == math.floor(x) and p['dot'] and (set(p['frac']) <= {'0'} or abs(x) < 1e16):
+        acc.violation(c2, 'no fraction', text, 'an integral value prints with a decimal point')
+    return ('sn', text)
+
+
+def check_memo(case, acc):
+    """The history a, b, a (three calls in this order in one process)."""
+    calls = memo_calls()
+    a, b = calls[case['a']], calls[case['b']]
+    via = case['via']
+    c2 = dict(case, calls=[repr(a), repr(b)])
+    o1 = run_memo_call(a, via, dict(c2, step=1), acc)
+    o2 = run_memo_call(b, via, dict(c2, step=2), acc)
+    o3 = run_memo_call(a, via, dict(c2, step=3), acc)
+    return (o1 == o3, o2)
+
+
+def fam_memo(arg):
+    _tier, rows = arg
+    acc = Acc('memo')
+    n = len(memo_calls())
+    for i in rows:
+        for j in range(n):
+            for via in ('direct', 'script-global'):
+                acc.cases += 1
+                before = acc.unspecified
+                obs = check_memo({'a': i, 'b': j, 'via': via}, acc)
+                acc.outcome(obs)
+                if memo_calls()[i][0] != memo_calls()[j][0] or i != j:
+                    acc.nontrivial += 1
+                acc.unspecified = before + min(acc.unspecified - before, 1)
+        acc.sample({'history': [repr(memo_calls()[i]), repr(memo_calls()[(i * 5 + 1) % n]), repr(memo_calls()[i])]})
+    return acc.result()
+
+
 def _prefix_shards(nsym, nshards):
     prefixes = list(itertools.product(range(nsym), repeat=2))
     return split(prefixes, nshards)
@@ -527,8 +657,17 @@ def families(tier):
                + [(tier, 'int', p, pr['LS'], i == 0) for i, p in enumerate(_prefix_shards(ni, 11))],
                f'the same parsers called from scripts (text in a global, text in a string literal) on every string of length <= {pr["LS"]}',
                expected=_nstrings(nf, pr['LS']) * 2 + _nstrings(ni, pr['LS']) * len(RADIXES) * 2),
+        Family('radix', fam_radix, [(tier, rs) for rs in split(list(range(2, 37)), 35)],
+               f'numberParseInt for EVERY radix 2..36 on every string of length <= {RADIX_LEN[tier]} over 0, 1, the largest digit (both cases), '
+               'the first non-digit, z, -, space',
+               expected=radix_expected(RADIX_LEN[tier])),
+        Family('memo', fam_memo, [(tier, rs) for rs in split(list(range(N_MEMO_CALLS)), 29)],
+               f'every history a, b, a over {N_MEMO_CALLS} calls ({len(MEMO_FLOAT_TEXTS)} numberParseFloat texts, {len(MEMO_INT_TEXTS)} numberParseInt texts x '
+               f'{len(MEMO_INT_RADIXES)} radix arguments, stringNew of {len(MEMO_VALUES)} values incl. 1 / 1.0 / true / "1"), direct and in scripts',
+               expected=N_MEMO_CALLS * N_MEMO_CALLS * 2),
     ]
-    return fams
+    # the self-contained call histories first (their violations replay on their own)
+    return fams[-2:] + fams[:-2]
 
 
 def _replay_number(case, acc):
@@ -536,7 +675,7 @@ def _replay_number(case, acc):
 
 
 _CHECKS = {'digits': _replay_number, 'pow2': _replay_number, 'bits': _replay_number, 'ints': _replay_number,
-           'pfloat': check_pfloat, 'pint': check_pint, 'pscript': check_pscript}
+           'pfloat': check_pfloat, 'pint': check_pint, 'pscript': check_pscript, 'radix': check_pint, 'memo': check_memo}
 
 
 def replay(family, case):
